@@ -421,14 +421,49 @@ def d3(chk, prog):
         ok = recs is not None and len(recs) == 1 and recs[0][0] == "G" and recs[0][1] == "chr1" and same(recs[0][2], 200) and recs[0][4] == 2 and recs[0][5] == 2
         tbe.cell(ok, dict(chromosomes=list(layout), got=repr(recs)[:200], want="one record: G on chr1 at 200, 2 bins on each side"))
     tbe.done("breaks fails or reports the wrong genes when a chromosome without any named gene is split into several segments")
-    # do_genemetrics: min_probes filter is >=
+    # do_genemetrics keeps a gene <=> its bin count (the segment's, when segments are given) >= min_probes: interpreted with the per-gene rows stubbed
     fg = prog.fn("cnvlib.reports.do_genemetrics")
-    cmps = [n for n in own_nodes(fg.node) if isinstance(n, ast.Compare) and "min_probes" in norm(n)]
-    chk.floor("min_probes comparison in do_genemetrics", len(cmps), 1)
-    for c in cmps:
-        ok = (isinstance(c.ops[0], ast.GtE) and norm(c.comparators[0]) == "min_probes") or (isinstance(c.ops[0], ast.LtE) and norm(c.left) == "min_probes")
-        chk.decide(ok, "breakpoint-predicate", f"do_genemetrics keeps genes with `{norm(c)}`", f"{fg.qn}::{norm(c)}", fg.loc(c),
-                   f"genes with exactly min_probes bins must be kept (>=); found `{norm(c)}`")
+    tbm = Table(chk, "breakpoint-predicate", "do_genemetrics: genes of 2, 3, 4 bins against min_probes 3 (and 0 / None: no filter), by gene and by segment", fg.loc(), fg.qn + "::min_probes")
+    for mp, by_segment in itertools.product([3, 0, None, 5], [False, True]):
+        W.reset()
+        model = Model()
+        fields = ["gene", "chromosome", "start", "end", "log2", "probes"] + (["segment_probes"] if by_segment else [])
+        rows_ = []
+        for nm, n_own, n_seg in (("G2", 2, 4), ("G3", 3, 2), ("G4", 4, 3)):
+            d_ = dict(gene=nm, chromosome="chr1", start=0, end=10, log2=Fr(1), probes=n_own)
+            if by_segment:
+                d_["segment_probes"] = n_seg
+            r_ = Row(d_, list(fields))
+            r_._d["index"] = list(fields)
+            rows_.append(r_)
+        model.method_prims["guess_xx"] = lambda it, obj, *a, **k: True
+        model.method_prims["shift_xx"] = lambda it, obj, *a, **k: obj
+        model.prims["cnvlib.reports.gene_metrics_by_gene"] = lambda it, *a, **k: list(rows_)
+        model.prims["cnvlib.reports.gene_metrics_by_segment"] = lambda it, *a, **k: list(rows_)
+
+        def from_records(it, recs, *a, **k):
+            recs = list(it.iterate(recs))
+            d = DF({c: Vec([r._d[c] for r in recs], aligned=True) for c in fields}, len(recs))
+            d.exact = True
+            for v in d.cols.values():
+                v.exact = True
+            return d
+        model.ext["pd.DataFrame.from_records"] = from_records
+        bins = make_ga("CopyNumArray", [dict(chromosome="chr1", start=0, end=10, gene="G2", log2=0)], {"sample_id": "S"}, exact=True)
+        segs = make_ga("CopyNumArray", [dict(chromosome="chr1", start=0, end=10, gene="-", log2=0, probes=1)], {"sample_id": "S"}, exact=True)
+        it = Interp(prog, model)
+        kw = dict(min_probes=mp)
+        out = tbm.guard(lambda: ("v", it.run(fg.qn, [bins, segs if by_segment else None], kw)), f"min_probes={mp} by_segment={by_segment}")
+        if out is None:
+            continue
+        res = out[1]
+        got = list(res.cols["gene"].v) if isinstance(res, DF) and "gene" in res.cols else repr(res)[:80]
+        if isinstance(res, DF) and "__keep__" in res.cols:
+            got = [g for g, k_ in zip(res.cols["gene"].v, res.cols["__keep__"].v) if k_ is True]
+        counts = {"G2": 4 if by_segment else 2, "G3": 2 if by_segment else 3, "G4": 3 if by_segment else 4}
+        want = [g for g in ("G2", "G3", "G4") if not mp or counts[g] >= mp]
+        tbm.cell(got == want, dict(min_probes=mp, by_segment=by_segment, bin_counts=counts, kept=got, want=want))
+    tbm.done("genemetrics does not keep exactly the genes with at least min_probes bins (the segment's count when segments are given; a gene with exactly min_probes bins is kept)")
 
 
 def d4(chk, prog):
